@@ -21,21 +21,21 @@ inductive LitKind | int | float | str | other
   deriving DecidableEq, Repr, Inhabited
 
 inductive TT
-  | ident (name : String) (sp : Sp)
+  | ident (name : String) (sp : Sp) (keyword : Bool)   -- keyword: `syn::Ident` does not accept it
   | punct (c : Char) (joint : Bool) (sp : Sp)
   | lit (kind : LitKind) (text : String) (sp : Sp) (extra : String)
   | group (d : Delim) (sp spOpen spClose : Sp) (ts : List TT)
   deriving Repr, Inhabited
 
 def TT.sp' : TT → Sp
-  | .ident _ sp | .punct _ _ sp | .lit _ _ sp _ => sp
+  | .ident _ sp _ | .punct _ _ sp | .lit _ _ sp _ => sp
   | .group _ _ spOpen _ _ => spOpen          -- `input.span()` on a group: its opening delimiter
 
 /-- What `syn` answers at a position. -/
 structure Oracle where
-  exprs : List ((List Nat × Nat) × (Nat × UExpr))
-  paths : List ((List Nat × Nat) × (Nat × UPath))
-  closures : List ((List Nat × Nat) × (Nat × Sp × UExpr))
+  exprs : List ((List Nat × Nat) × (Nat × Bool × UExpr))     -- tokens taken, deferred-unexpected, result
+  paths : List ((List Nat × Nat) × (Nat × Bool × UPath))
+  closures : List ((List Nat × Nat) × (Nat × Bool × Sp × UExpr))
   deriving Inhabited
 
 /-- A position in a token sequence (`ParseBuffer`). -/
@@ -101,7 +101,7 @@ def isPunct2 (a b : Char) : List TT → Bool
   | _ => false
 
 def isIdent (name : String) : List TT → Bool
-  | .ident n _ :: _ => n == name
+  | .ident n _ _ :: _ => n == name
   | _ => false
 
 def isGroup (d : Delim) : List TT → Bool
@@ -127,7 +127,7 @@ def punct2 (a b : Char) : P Sp := fun c s =>
 
 def anyIdent : P IdentTok := fun c s =>
   match c.rest with
-  | .ident n sp :: _ => if n == "_" then .err s.ctr else .ok ⟨n, sp⟩ (c.advance 1) s
+  | .ident n sp kw :: _ => if kw then .err s.ctr else .ok ⟨n, sp⟩ (c.advance 1) s
   | _ => .err s.ctr
 
 /-- `parenthesized!` / `braced!` / `bracketed!` followed by the parse of the content and the drop
@@ -146,12 +146,12 @@ def withGroup {α} (d : Delim) (inner : Sp → Sp → P α) : P α := fun c s =>
 
 def oracleExpr (o : Oracle) : P UExpr := fun c s =>
   match o.exprs.lookup (c.path, c.idx) with
-  | some (n, e) => .ok e (c.advance n) s
+  | some (n, u, e) => .ok e (c.advance n) { s with unexp := s.unexp || u }
   | none => .err s.ctr
 
 def oraclePath (o : Oracle) : P UPath := fun c s =>
   match o.paths.lookup (c.path, c.idx) with
-  | some (n, p) => .ok p (c.advance n) s
+  | some (n, u, p) => .ok p (c.advance n) { s with unexp := s.unexp || u }
   | none => .err s.ctr
 
 def isRangeExpr (e : UExpr) : Bool := match e.cls with | .range .. => true | _ => false
@@ -170,7 +170,7 @@ def parseFieldName : P FieldName := fun c s =>
     match tupleIndex? digits with
     | some n => .ok (.index n) (c.advance 1) s
     | none => .err s.ctr
-  | .ident n sp :: _ => if n == "_" then .err s.ctr else .ok (.ident ⟨n, sp⟩) (c.advance 1) s
+  | .ident n sp kw :: _ => if kw then .err s.ctr else .ok (.ident ⟨n, sp⟩) (c.advance 1) s
   | _ => .err s.ctr
 
 /-- Method-call arguments: expressions separated by commas; stops at a missing comma. -/
@@ -194,7 +194,7 @@ def parseOneOp (o : Oracle) (fuel : Nat) : P (List FieldOp) := do
     let dotSp ← punct1 '.'
     let c1 ← getCur
     match c1.rest with
-    | .ident "await" sp :: _ => do advance 1; pure [.await sp]
+    | .ident "await" sp _ :: _ => do advance 1; pure [.await sp]
     | .lit .int _ _ digits :: _ =>
       match tupleIndex? digits with
       | some n => do advance 1; pure [.unnamed n dotSp]
@@ -262,8 +262,40 @@ def parseCmpOp : P (CmpOp × Sp) := do
 
 def peek2 (test : List TT → Bool) (ts : List TT) : Bool := test (ts.drop 1)
 
-/-- After a `..` that ended a struct / set / map loop, or when the group is exhausted. -/
-inductive LoopEnd | rest | done
+/-- The path of a struct pattern: `_` (wildcard struct) or a `syn::Path`. -/
+def structPath (o : Oracle) : P (Option UPath) := do
+  let c ← getCur
+  if isIdent "_" c.rest then do advance 1; pure none
+  else do let p ← oraclePath o; pure (some p)
+
+/-- The positional test of `parse_comma_separated`: the speculative pattern parse succeeded and
+is not followed by `:`. -/
+def isPositional (spec : Option (Pat × Cur)) : Bool :=
+  match spec with
+  | some (_, c') => !isPunct ':' c'.rest
+  | none => false
+
+/-- One tuple element (`pp`: the pattern parser, `pfo`: the field-operation parser). -/
+def elemHead (pp : P Pat) (pfo : P FieldOps) (position : Nat) : P (Option FieldOps × Pat) := do
+  let spec ← fork pp
+  if isPositional spec then do
+    let p ← pp
+    pure (none, p)
+  else do
+    let ops ← pfo
+    match ops.rootFieldName? with
+    | some (.index i) =>
+      if i = position then do
+        let _ ← punct1 ':'
+        let p ← pp
+        pure (some ops, p)
+      else fail
+    | _ => fail
+
+/-- The optional parenthesised elements of an enum pattern. -/
+def enumArgs (pe : P Items) : P Items := do
+  let c ← getCur
+  if isGroup .paren c.rest then withGroup .paren fun _ _ => pe else pure Items.nil
 
 mutual
 /-- `Pattern::parse`. -/
@@ -275,9 +307,9 @@ def parsePattern (o : Oracle) : Nat → P Pat
     if isPunct '|' ts || (isIdent "move" ts && peek2 (isPunct '|') ts) then
       -- closure: `syn::ExprClosure`, exactly one parameter
       fun c s => match o.closures.lookup (c.path, c.idx) with
-        | some (n, _, e) =>
+        | some (n, u, _, e) =>
           (match e.cls with
-            | .closure 1 => .ok (Pat.closure s.ctr e) (c.advance n) { s with ctr := s.ctr + 1 }
+            | .closure 1 => .ok (Pat.closure s.ctr e) (c.advance n) { ctr := s.ctr + 1, unexp := s.unexp || u }
             | _ => .err s.ctr)
         | none => .err s.ctr
     else if isIdent "_" ts then
@@ -309,17 +341,16 @@ def parsePattern (o : Oracle) : Nat → P Pat
       pure (.tuple id sp elems)
     else
       match o.paths.lookup (c.path, c.idx) with
-      | some (n, _) =>
+      | some (n, _, _) =>
         if isGroup .brace (ts.drop n) then parseStruct o fuel
         else do
           let path ← oraclePath o
-          let c' ← getCur
-          let elems ← if isGroup .paren c'.rest then withGroup .paren fun _ _ => parseElems o fuel 0 else pure Items.nil
+          let elems ← enumArgs (parseElems o fuel 0)
           let id ← nextId
           pure (.enum id path elems)
       | none =>
         match o.exprs.lookup (c.path, c.idx) with
-        | some (_, e) =>
+        | some (_, _, e) =>
           if isRangeExpr e then do
             -- the speculative `fork.parse::<PatternRange>()` takes a node id of its own
             let _ ← nextId
@@ -350,8 +381,7 @@ def parseStruct (o : Oracle) : Nat → P Pat
   | 0 => outOfFuel
   | fuel + 1 => do
     let id ← nextId
-    let c ← getCur
-    let path ← if isIdent "_" c.rest then do advance 1; pure (none : Option UPath) else do let p ← oraclePath o; pure (some p)
+    let path ← structPath o
     let (fields, rest) ← withGroup .brace fun _ _ => parseFields o fuel
     if path.isNone && !rest then fail
     else pure (.struct id path fields rest)
@@ -386,23 +416,7 @@ def parseElems (o : Oracle) : Nat → Nat → P Items
     let c ← getCur
     if c.isEmpty then pure .nil
     else do
-      let spec ← fork (parsePattern o fuel)
-      let positional := match spec with
-        | some (_, c') => !isPunct ':' c'.rest
-        | none => false
-      let (ops, p) ← if positional then do
-          let p ← parsePattern o fuel
-          pure ((none : Option FieldOps), p)
-        else do
-          let ops ← parseFieldOps o fuel
-          match ops.rootFieldName? with
-          | some (.index i) =>
-            if i = position then do
-              let _ ← punct1 ':'
-              let p ← parsePattern o fuel
-              pure (some ops, p)
-            else fail
-          | _ => fail
+      let (ops, p) ← elemHead (parsePattern o fuel) (parseFieldOps o fuel) position
       let c1 ← getCur
       if c1.isEmpty then pure (.cons ops none p .nil)
       else do
